@@ -15,6 +15,11 @@ ASSUMPTIONS = ["the hot/cold protocol P of DESIGN §4.C02 yields consistent cuts
 def run(ctx):
     f = ctx.facts("default")
     ctx.run_rule("R1", hc.rule_C02, f)
+    # "its sample sum is the sum of S": what a collection carries over from the drained shard must be exactly what it drained (shared with C03.R1/R2)
+    from . import C06
+    ctx.rule("R7", "conservation (shared with C03.R1, C03.R2): every drained component is merged exactly once into the same component of the hot shard; a local batch adds "
+                   "exactly its own count, sum and bucket deltas")
+    ctx.run_rule("R7", lambda c: C06._as(c, "R7", lambda s_: hc.rule_C03(s_, f), keep=lambda k: ".R1|" in k or ".R2|" in k))
     if ctx.tier == "thorough":
         for cfgname in ("plain", "nightlyproc"):
             g = ctx.facts(cfgname)
